@@ -23,7 +23,7 @@ U32 = 0xFFFFFFFF
 
 
 def n_cases(tier):
-    return 1500 if tier == "quick" else 40000
+    return 4000 if tier == "quick" else 60000
 
 
 def gen(rng):
